@@ -29,6 +29,10 @@
 
   Operations:
     iter [k=<rowmajor|colmajor|row|col|diag>] [a=<i>] f=<copy|ref|mut|owned> wi=<0|1> n=<calls>
+         [conv=<k>]    the first k calls on the plain iterator, then it is converted into its
+                       with-index form (`with_index()`; `wvia=into`: `WithIndex::from(it)`;
+                       `wvia=dotinto`: `it.into()`), which serves the remaining calls
+         [clone=<k>]   (bare ShapeIterator) after k calls `clone()`; the copy, then the original
          [split=<k>]   the first k calls on the with-index iterator, then `WithIndex::source()`
                        and the remaining calls on the wrapped iterator
          (`via=`: API form; `wvia=into`: with-index iterator made by `From`/`into()`;
@@ -302,6 +306,16 @@ def answer (op : String) (f : Flavour) (wi : Bool) (split : Option Nat) (n : Nat
       let model := ";".intercalate m.1 ++ tail (nodup m.2.1)
       both spec model
     | some k =>
+      if op = "iter-conv" then
+        -- `k` calls on the plain iterator, then `with_index()` / `WithIndex::from` / `.into()`:
+        -- the conversion is the identity on the iterator's state (`withIndex_of_advanced`)
+        let m0 := modelRecords f false next hint counter cell showP n (s0, mem0)
+        let m1 := modelRecords f true next hint counter cell showP n (s0, mem0)
+        let spec := ";".intercalate ((specRecords f mem0 false total item cell showP n).take k ++
+          (specRecords f mem0 true total item cell showP n).drop k) ++ tail true
+        let model := ";".intercalate (m0.1.take k ++ m1.1.drop k) ++ tail (nodup m0.2.1)
+        both spec model
+      else
       -- `k` calls on the with-index iterator, `WithIndex::source()`, then the wrapped iterator:
       -- the wrapper has no state of its own, so the records are those of the with-index run
       -- up to `k` and of the plain run from `k` on
@@ -422,7 +436,7 @@ def applyTensorAdaptorT (t : Tensor String Nat) (tok : String) :
 def natArg (key : String) (toks : List String) (dflt : Nat) : Nat :=
   ((optArg key toks).bind String.toNat?).getD dflt
 
-def shapeIterAnswer (lens : List Nat) (n : Nat) : String :=
+def shapeIterAnswer (lens : List Nat) (n : Nat) (cloneAt : Option Nat) : String :=
   -- bare ShapeIterator: the item is the index itself
   let rec modelRecs : Nat → Iter.ShapeIter → Iter.ShapeIter → List String
     | 0, _, _ => []
@@ -438,8 +452,16 @@ def shapeIterAnswer (lens : List Nat) (n : Nat) : String :=
   let specRecs := (List.range n).map fun k =>
     let rem := Spec.remaining total k
     s!"{rem}/{rem}/{rem}:{((Spec.shapeItem lens k).map showIdx).getD "-"}"
-  let model := ";".intercalate (modelRecs n (Iter.ShapeIter.new lens) (Iter.ShapeIter.new lens))
-  if total ≤ usizeMax then both (";".intercalate specRecs) model
+  -- `clone=<k>`: the iterator is a value; after `k` calls the copy and the original both go on
+  -- from item `k`
+  let arrange (recs : List String) : String :=
+    match cloneAt with
+    | none => ";".intercalate recs
+    | some k =>
+      let rest := ";".intercalate (recs.drop k)
+      s!"{";".intercalate (recs.take k)} | clone:{rest} | original:{rest}"
+  let model := arrange (modelRecs n (Iter.ShapeIter.new lens) (Iter.ShapeIter.new lens))
+  if total ≤ usizeMax then both (arrange specRecs) model
   else s!"unrepresentable-length ## {model}"
 
 def matrixAnswer (op0 : String) (src : MSource Nat) (leafIds : List Nat) (m0 : Mem)
@@ -451,7 +473,9 @@ def matrixAnswer (op0 : String) (src : MSource Nat) (leafIds : List Nat) (m0 : M
   let a := natArg "a" toks 0
   let n := natArg "n" toks 0
   let wi := (optArg "wi" toks) == some "1"
-  let split := (optArg "split" toks).bind String.toNat?
+  let conv := (optArg "conv" toks).bind String.toNat?
+  let split := if conv.isSome then conv else (optArg "split" toks).bind String.toNat?
+  let op := if conv.isSome && op = "iter" then "iter-conv" else op
   match parseFlavour ((optArg "f" toks).getD (if op = "left" then "owned" else "copy")) with
   | none => "bad-op"
   | some f =>
@@ -489,7 +513,9 @@ def tensorAnswer (op0 : String) (src : TSource Nat) (leafIds : List Nat) (m0 : M
     else op0
   let n := natArg "n" toks 0
   let wi := (optArg "wi" toks) == some "1"
-  let split := (optArg "split" toks).bind String.toNat?
+  let conv := (optArg "conv" toks).bind String.toNat?
+  let split := if conv.isSome then conv else (optArg "split" toks).bind String.toNat?
+  let op := if conv.isSome && op = "iter" then "iter-conv" else op
   match parseFlavour ((optArg "f" toks).getD (if op = "left" then "owned" else "copy")) with
   | none => "bad-op"
   | some f =>
@@ -578,7 +604,8 @@ def step (s : State) (toks : List String) : State × String :=
     else if op = "iter" || op = "left" || op = "consume" then
       match s with
       | .none => (s, "no-source")
-      | .shape lens => (s, shapeIterAnswer lens (natArg "n" rest 0))
+      | .shape lens =>
+        (s, shapeIterAnswer lens (natArg "n" rest 0) ((optArg "clone" rest).bind String.toNat?))
       | .tensor _ src leafIds mem => (s, tensorAnswer op src leafIds mem rest)
       | .matrix src leafIds mem => (s, matrixAnswer op src leafIds mem rest)
     else (s, "bad-op")
